@@ -4,11 +4,14 @@
 BIN=${1:-/verif/bin/scverif}; OUT=${2:-/tmp/corpus.out}; J=${3:-5}
 one() {
   d=$1; BIN=$2
-  r=$(/verif/tools/try_wt.sh $d $BIN | grep "^SWEEP " | grep -v "^SWEEP done" | sed -E 's/^SWEEP (C[0-9]+) (violation|undecided) (R[0-9.]+).*/\1:\2:\3/' | sort -u | tr '\n' ' ')
+  out=$(/verif/tools/try_wt.sh $d $BIN 2>/tmp/corpus-err-$(basename $d).txt)
+  r=$(echo "$out" | grep "^SWEEP " | grep -v "^SWEEP done" | sed -E 's/^SWEEP (C[0-9]+) (violation|undecided) (R[0-9.]+).*/\1:\2:\3/' | sort -u | tr '\n' ' ')
+  # a run that did not finish (crash, patch does not apply) must not pass for silence
+  if ! echo "$out" | grep -q "^SWEEP done"; then r="C00:undecided:CRASHED $r"; else rm -f /tmp/corpus-err-$(basename $d).txt; fi
   echo "$(basename $d) $r"
 }
 export -f one
-ls -d /verif/seeded/C*/ /verif/refactors/R*/ | sed 's#/$##' | xargs -P $J -I{} bash -c "one {} $BIN" > $OUT.tmp
+ls -d ${CORPUS_DIRS:-/verif/seeded/C*/ /verif/refactors/R*/} | sed 's#/$##' | xargs -P $J -I{} bash -c "one {} $BIN" > $OUT.tmp
 sort $OUT.tmp > $OUT; rm -f $OUT.tmp
 python3 - "$OUT" <<'PY'
 import sys,re
